@@ -128,5 +128,10 @@ Definition counts_today (K : nat) (l : list (Q * option (list Q))) : list Q :=
   map (fun k => wsum (vote_ind k) (unmask0 l)) (seq 0 K).
 Definition mode_today (K : nat) (l : list (Q * option (list Q))) : nat := argmax (counts_today K l).
 Definition mode_unc_today (u : Q) (K : nat) (l : list (Q * option (list Q))) : Q := u - qmax (counts_today K l).
+(* intermediate state (F24 repaired, F25 not): weights normalised, a masked member still votes for class 0 *)
+Definition counts_mid (K : nat) (l : list (Q * option (list Q))) : list Q :=
+  map (fun k => wavg (vote_ind k) (unmask0 l)) (seq 0 K).
+Definition mode_mid (K : nat) (l : list (Q * option (list Q))) : nat := argmax (counts_mid K l).
+Definition mode_unc_mid (K : nat) (l : list (Q * option (list Q))) : Q := 1 - qmax (counts_mid K l).
 Definition all_masked {A} (l : list (Q * option A)) : bool :=
   forallb (fun m => match snd m with None => true | Some _ => false end) l.
